@@ -8,6 +8,7 @@ import (
 	"runtime/debug"
 
 	"bngvet/engines"
+	"bngvet/internal/cfront"
 	"bngvet/internal/load"
 	"bngvet/internal/report"
 )
@@ -36,8 +37,10 @@ func main() {
 		}()
 		ctx := &engines.Ctx{R: r, Tier: *tier, Repo: *repo, Verif: *verif}
 		load.BaselineFuncs = *verif + "/baseline_funcs.txt"
+		cfront.BaselineCFuncs = *verif + "/baseline_cfuncs.txt"
 		if os.Getenv("BNGVET_NO_INLINE") != "" {
 			load.BaselineFuncs = ""
+			cfront.BaselineCFuncs = ""
 		}
 		if !engines.NoGo[*prop] {
 			p, err := load.Load(*repo, true)
